@@ -21,55 +21,38 @@ automaton `Life.C04.next true me`:
 * when the task ends (`join`) a supervised actor has reported its end; the join handle completes
   normally unless the task was aborted.
 
-## Finding (reproduced on the real code, witness in `corpus/C04/e-lts-kill-idle-state.ops`)
+## Former finding `c04.kill-state` (repaired)
 
-The clause "kill ⇒ no state" is FALSE of the code as it stands: a kill observed *inside the
-message loop* (idle, or racing a message / supervision handler) leaves through
-`ActorLoopResult::signal`, `processing_loop` returns `Ok(Some("killed"))` and `start()` builds
+On the pinned commit the clause "kill ⇒ no state" was false: a kill observed *inside the message
+loop* (idle, or racing a message / supervision handler) left through `ActorLoopResult::signal`,
+`processing_loop` returned `Ok(Some("killed"))` and `start()` built
 `ActorTerminated(cell, Some(state), Some("killed"))`, whereas a kill observed around
-`post_start` / `post_stop` yields `ActorTerminated(cell, None, Some("killed"))`.
-`statement_false` proves the negation of the full statement on the model (which mirrors the code),
-`reported_once_partial` proves everything else for all op sequences, and
-`reported_once_unless_loop_kill` is the full statement under the decidable excluding hypothesis.
+`post_start` / `post_stop` yields `ActorTerminated(cell, None, Some("killed"))`. The check
+rediscovered it (witness `corpus/C04/e-lts-kill-idle-state.ops`, replayed on every run); the repo
+commit `fix: report no state when an actor is killed inside its message loop` makes the loop-kill
+path return `Err(ActorErr::Cancelled)` like the other two, the model follows the repaired code and
+the statement below is proved at full strength. On a tree without the repair the oracle clause
+`c04.kill-state` fails on the witness and the check reports a VIOLATION.
 -/
 
 namespace C04
 open Life
 
-/-- The property as stated (full strength). -/
-def Statement : Prop := ∀ (id : Nat) (ops : List AOp), Life.C04.ok id (trace id ops) = true
+/-- **C04, all schedules, full strength.** For every actor and every sequence of operations the
+actor's trace is accepted by the supervision-event automaton. -/
+theorem reported_once (id : Nat) (ops : List AOp) : Life.C04.ok id (trace id ops) = true := by
+  obtain ⟨s', h, _⟩ := Life.C04.run_sim id ops (Actor.init id) {} (Life.C04.inv_init id)
+  simp [Life.C04.ok, trace, h, Except.isOk, Except.toBool]
 
-/-- A supervised child is killed while idle. -/
+/-- The op sequence that exhibited the former finding: a supervised child killed while idle. -/
 def witness : List AOp :=
   [.spawn (some 0), .resume ⟨[], .ok⟩, .pollSpawn true, .poll, .resume ⟨[], .ok⟩, .poll, .kill, .poll]
-
-/-- The full statement is false of the model of the current code. -/
-theorem statement_false : ¬ Statement := by
-  intro h
-  have := h 1 witness
-  revert this
-  decide
-
-/-- **C04 without the "kill ⇒ no state" clause, all schedules.** -/
-theorem reported_once_partial (id : Nat) (ops : List AOp) :
-    Life.C04.okWith false id (trace id ops) = true := by
-  obtain ⟨s', h, _⟩ := Life.C04.run_sim id ops (Actor.init id) {} (Life.C04.inv_init id)
-  simp [Life.C04.okWith, trace, h, Except.isOk, Except.toBool]
-
-/-- **The full statement under the excluding hypothesis** (`noKillState`: no terminal event
-"killed" that carries the state — exactly the negation of the finding's classifier). -/
-theorem reported_once_unless_loop_kill (id : Nat) (ops : List AOp)
-    (h : Life.C04.noKillState (trace id ops) = true) : Life.C04.ok id (trace id ops) = true := by
-  have := reported_once_partial id ops
-  simp only [Life.C04.ok, Life.C04.okWith] at this ⊢
-  rw [Life.C04.accepts_strict_eq id _ _ h]
-  exact this
 
 /-- The invariant behind it (see `Life.C04.Core`): while the actor lives no terminal event was
 emitted and the guard is armed; `ActorStarted` was emitted only past `post_start`; a pending stop
 reason / drain marker / kill is known to the automaton; the automaton's supervisor is the actor's. -/
 theorem invariant (id : Nat) (ops : List AOp) :
-    ∃ s, accepts (Life.C04.next false id) {} (trace id ops) = .ok s ∧
+    ∃ s, accepts (Life.C04.next id) {} (trace id ops) = .ok s ∧
       Life.C04.Inv id ((Actor.init id).run ops).1 s :=
   Life.C04.run_sim id ops (Actor.init id) {} (Life.C04.inv_init id)
 
@@ -103,12 +86,15 @@ example : trace 1 [.spawn (some 0), .resume ⟨[], .ok⟩, .pollSpawn true, .pol
      .enter .postStart .none, .aborted, .cancelled .postStart,
      .emit 0 (.terminated 1 false .cancelled), .join .cancelled, .supIs none] := by decide
 
-/-- The witness of the finding, spelled out. -/
+/-- The witness of the former finding, spelled out: no state any more. -/
 example : trace 1 witness =
     [.enter .preStart .none, .tick .preStart, .exit .preStart .ok, .spawnRet .ok, .supIs (some 0),
      .enter .postStart .none, .tick .postStart, .exit .postStart .ok, .emit 0 (.started 1),
-     .killRet false true, .emit 0 (.terminated 1 true .killed), .join .ok, .supIs none] := by decide
+     .killRet false true, .emit 0 (.terminated 1 false .killed), .join .ok, .supIs none] := by decide
 
+/-- what the unrepaired code produced on the witness is rejected (`c04.kill-state`) -/
+example : Life.C04.ok 1 [.supIs (some 0), .exit .postStart .ok, .emit 0 (.started 1), .killRet false true,
+    .emit 0 (.terminated 1 true .killed), .join .ok] = false := by decide
 example : Life.C04.ok 1 [.supIs (some 0), .exit .postStart .ok, .emit 0 (.started 1), .emit 0 (.started 1)] = false := by decide
 example : Life.C04.ok 1 [.supIs (some 0), .emit 0 (.started 1)] = false := by decide
 example : Life.C04.ok 1 [.supIs (some 0), .exit .handle (.err 3), .emit 0 (.failed 1 false 3),
@@ -122,9 +108,7 @@ example : Life.C04.ok 1 [.supIs (some 0), .drainRet true, .exit .postStop .ok, .
 
 end C04
 
-#print axioms C04.statement_false
-#print axioms C04.reported_once_partial
-#print axioms C04.reported_once_unless_loop_kill
+#print axioms C04.reported_once
 #print axioms C04.invariant
 #print axioms C04.prestart_failure_silent
 #print axioms C04.src_cleanup_order
